@@ -29,8 +29,10 @@ pub struct Unit {
     pub broadcasts: Vec<String>,      // broadcast groups made available at the entry of every extracted body (ghost only)
     pub lettypes: Vec<(String, Vec<String>)>, // `lettype path::<$1> => T1<$1>, T2<$1>`: types of the names a tuple `let` binds from a call of that path
     pub guards: BTreeSet<String>,     // `guard a b`: methods that return a lock guard (rule G6)
+    pub arity: BTreeMap<String, usize>, // `eager name/N` / `traced name/N`: the rule applies only to calls with N arguments (an unrelated method of the same name, `Option::replace(v)` next to `Addr::replace()`, is left alone)
     pub eagersync: BTreeSet<String>,  // eager names whose un-awaited call is a synchronous call of a same-named function (not a future value)
     pub onrecv: Vec<(String, String, String)>, // method `m` called on the local `x` is renamed (`on x m => n`)
+    pub nohold: Vec<(Vec<String>, Vec<String>, String)>, // `nohold up1 up2 => sleep1 sleep2 : marker`: a binding made from a call of `up*` must be out of scope (or dropped) at every call of `sleep*` (rule G7)
     pub dropfx: Vec<(String, String)>,       // `dropfx name => f`: an explicit `drop(e)` where `e` names `name` (a local, `self.name`, a capture `self_name`) is `f(e)` (a drop with an effect the model knows)
     pub panic_forbidden: bool,        // `panics forbidden`: a panic in this unit's functions is an obligation failure, not a path end
     pub pure_paths: BTreeSet<String>,  // call paths that never take the ghost world, whatever their last segment is called
@@ -51,7 +53,7 @@ impl Unit {
                 "prelude" => u.preludes.extend(words()),
                 "spec" => u.specs.extend(words()),
                 "specref" => u.specrefs.extend(words()),
-                "eager" => { u.eager.extend(words()); u.traced.extend(words()); }
+                "eager" => { for wd in words() { let (nm, ar) = match wd.split_once('/') { Some((a, b)) => (a.to_string(), b.parse::<usize>().ok()), None => (wd.clone(), None) }; if let Some(k) = ar { u.arity.insert(nm.clone(), k); } u.eager.insert(nm.clone()); u.traced.insert(nm); } }
                 "traced" => u.traced.extend(words()),
                 "lettype" => { let (a, b) = rest.split_once("=>").ok_or_else(|| format!("{}:{}: expected `lettype path => T1, T2`", p.display(), n + 1))?; let mut tys = vec![]; let mut depth = 0i32; let mut cur = String::new(); for ch in b.chars() { match ch { '<' | '(' => { depth += 1; cur.push(ch); } '>' | ')' => { depth -= 1; cur.push(ch); } ',' if depth == 0 => { tys.push(cur.trim().to_string()); cur.clear(); } _ => cur.push(ch) } } if !cur.trim().is_empty() { tys.push(cur.trim().to_string()); } u.lettypes.push((nospace(a), tys)); }
                 "guard" => { u.guards.extend(words()); }
@@ -62,6 +64,7 @@ impl Unit {
                 "broadcast" => u.broadcasts.extend(words()),
                 "define" => { let w: Vec<String> = words().collect(); if w.len() == 2 { u.defines.push((w[0].clone(), w[1].clone())); } }
                 "expr" => { let (a, b) = rest.split_once("=>").ok_or_else(|| format!("{}:{}: expected `a => b`", p.display(), n + 1))?; u.exprs.push((nospace(a), b.trim().to_string())); }
+                "nohold" => { let (a, b) = rest.split_once("=>").ok_or_else(|| format!("{}:{}: expected `nohold up.. => sleep.. : marker`", p.display(), n + 1))?; let (b, m) = b.split_once(':').ok_or_else(|| format!("{}:{}: expected `: marker`", p.display(), n + 1))?; u.nohold.push((a.split_whitespace().map(|x| x.to_string()).collect(), b.split_whitespace().map(|x| x.to_string()).collect(), m.trim().to_string())); }
                 "dropfx" => { let (a, b) = rest.split_once("=>").ok_or_else(|| format!("{}:{}: expected `dropfx name => f`", p.display(), n + 1))?; u.dropfx.push((a.trim().to_string(), b.trim().to_string())); }
                 "on" => { let (a, b) = rest.split_once("=>").ok_or_else(|| format!("{}:{}: expected `on x m => n`", p.display(), n + 1))?; let ws: Vec<&str> = a.split_whitespace().collect(); if ws.len() != 2 { return Err(format!("{}:{}: on x m => n", p.display(), n + 1)); } u.onrecv.push((ws[0].to_string(), ws[1].to_string(), b.trim().to_string())); }
                 "chain" => { let (a, b) = rest.split_once("=>").ok_or_else(|| format!("{}:{}: expected `a b => c`", p.display(), n + 1))?; let ws: Vec<&str> = a.split_whitespace().collect(); if ws.len() != 2 { return Err(format!("{}:{}: chain a b => c", p.display(), n + 1)); } u.chains.push((ws[0].to_string(), ws[1].to_string(), b.trim().to_string())); }
